@@ -225,110 +225,17 @@ func runC20(c *Ctx) {
 	}
 	okArg := strings.HasSuffix(w.Expr(bc.Call.Args[1]), "yubiagent.read>(p1)#0[const(0)]")
 	c.Check(okArg, "R3.loop", "ServeAgent|broadcast code is the request's first byte", w.Pos(bc.Pos()), "Broadcast(req[0])", "the code broadcast is not the first byte of the request just read: "+w.Short(bc.Call.Args[1]))
-	// dispatch point: first comparison of req[0] with a constant that is not the Broadcast argument's block
-	var dispatch *ssa.BasicBlock
-	var dispatchBlocks []*ssa.BasicBlock
-	for _, tf := range w.Tree(serve) {
-		if tf == serve || w.transparent(tf) {
-			dispatchBlocks = append(dispatchBlocks, tf.Blocks...)
-		}
-	}
-	for _, b := range dispatchBlocks {
-		for _, ins := range b.Instrs {
-			bin, ok := ins.(*ssa.BinOp)
-			if !ok || bin.Op != token.EQL {
-				continue
-			}
-			if _, isK := intConst(bin.Y); isK && strings.HasSuffix(w.Expr(bin.X), "yubiagent.read>(p1)#0[const(0)]") {
-				if dispatch == nil || (b.Parent() == dispatch.Parent() && b.Dominates(dispatch)) {
-					dispatch = b
-				}
-			}
-		}
-	}
-	// a dispatch made in a helper is located, in ServeAgent, at the call that leads to it
-	for hop := 0; hop < 3 && dispatch != nil && dispatch.Parent() != serve; hop++ {
-		sites := w.sitesIn(serve, dispatch.Parent())
-		if len(sites) != 1 {
-			dispatch = nil
-			break
-		}
-		dispatch = sites[0].Block()
-	}
-	if dispatch == nil {
+	// the work of a request (every block that only some request codes reach and that does more than test the code)
+	// is preceded, within its iteration, by the broadcast or by a failed shim-server type test
+	wire := newWireView(w)
+	if wire.flow == nil || wire.flow.tests == 0 {
 		c.Unresolved("R3.loop", "dispatch on the request's first byte in ServeAgent")
 		return
 	}
-	okAll := true
-	// the instruction of ServeAgent that performs the broadcast: the call itself, or the call of the helper holding it
-	var site ssa.Instruction = bc
-	for hop := 0; hop < 3 && site.Parent() != serve; hop++ {
-		h := site.Parent()
-		sites := w.sitesIn(serve, h)
-		if len(sites) != 1 {
-			okAll = false
-			break
-		}
-		// inside the helper every return was preceded by the broadcast or by a failed shim-server type test
-		hf := w.factsOf(h)
-		for _, r := range liveReturns(h) {
-			if MustPassFromEntry(h, r, map[ssa.Instruction]bool{site: true}) {
-				continue
-			}
-			hasFailedAssert := func(facts map[Lit]bool) bool {
-				for l := range facts {
-					if ex, ok := l.V.(*ssa.Extract); ok && !l.Pol && ex.Index == 1 {
-						if ta, ok := ex.Tuple.(*ssa.TypeAssert); ok && ta.CommaOk {
-							return true
-						}
-					}
-				}
-				return false
-			}
-			failed := hasFailedAssert(hf.Local(r.Block()))
-			if !failed && len(r.Block().Preds) > 0 && len(r.Block().Instrs) == 1 {
-				// a merge block holding only the return: every edge into it carries a failed type test
-				failed = true
-				for _, p := range r.Block().Preds {
-					if !hasFailedAssert(w.factsOnEdge(p, r.Block())) {
-						failed = false
-					}
-				}
-			}
-			if !failed {
-				okAll = false
-			}
-		}
-		site = sites[0]
-	}
-	if site.Parent() != serve {
-		okAll = false
-		site = serve.Blocks[0].Instrs[0]
-	}
-	for _, p := range dispatch.Preds {
-		if p == site.Block() || site.Block().Dominates(p) {
-			continue
-		}
-		ef := w.factsOnEdge(p, dispatch)
-		failedAssert := false
-		for l := range ef {
-			if ex, ok := l.V.(*ssa.Extract); ok && !l.Pol && ex.Index == 1 {
-				if ta, ok := ex.Tuple.(*ssa.TypeAssert); ok && ta.CommaOk {
-					failedAssert = true
-				}
-			}
-		}
-		if !failedAssert {
-			okAll = false
-		}
-	}
-	c.Check(okAll && !dispatch.Dominates(site.Block()), "R3.loop", "ServeAgent|broadcast precedes dispatch on every path", w.Pos(bc.Pos()), "each edge into the dispatch comes from the broadcast or from a failed shim-server type test", "a request can be dispatched without its code having been broadcast first (or the broadcast happens after dispatch)")
+	okAll, why := c20BroadcastPrecedes(w, wire, serve, bc)
+	c.Check(okAll, "R3.loop", "ServeAgent|broadcast precedes dispatch on every path", w.Pos(bc.Pos()), "every path from the read of a request to the work of an arm passes the broadcast or a failed shim-server type test", "a request can be dispatched without its code having been broadcast first (or the broadcast happens after dispatch)"+why)
 	// broadcast is not restricted to some codes: facts at the broadcast contain no comparison of req[0]
-	f := w.Facts(serve)
-	restricted := f.Any(bc.Block(), func(l Lit) bool {
-		bin, ok := l.V.(*ssa.BinOp)
-		return ok && strings.Contains(w.Expr(bin.X), "#0[const(0)]") && bin.Op != token.LSS
-	})
+	restricted := !wire.flow.At(bc).full()
 	c.Check(!restricted, "R3.loop", "ServeAgent|every code is broadcast", w.Pos(bc.Pos()), "the broadcast does not depend on the code", "only some request codes are broadcast")
 	// wait arm
 	nWait := 0
@@ -493,4 +400,169 @@ func checkCondUse(c *Ctx, m *shimModel, fn *ssa.Function, method string, needLoc
 			c.Ok("R2.cond", fn.Name()+"|a waiter writes no state shared with the other waiters", w.FnPos(fn), "no store through the receiver in the waiting method")
 		}
 	}
+}
+
+// failedAssertEdge: control goes from p to s because a comma-ok type assertion failed.
+func failedAssertEdge(w *World, p, s *ssa.BasicBlock) bool {
+	for l := range w.factsOnEdge(p, s) {
+		if ex, ok := l.V.(*ssa.Extract); ok && !l.Pol && ex.Index == 1 {
+			if ta, ok := ex.Tuple.(*ssa.TypeAssert); ok && ta.CommaOk {
+				return true
+			}
+		}
+	}
+	return false
+}
+
+// c20BroadcastPrecedes: see the rule text. Both the broadcast and the work may sit in helpers: each is lifted to the
+// function they share (through unique call sites), where the path condition is decided; a helper holding the
+// broadcast must have performed it (or failed the type test) on each of its returns.
+func c20BroadcastPrecedes(w *World, wire *wireView, serve *ssa.Function, bc *ssa.Call) (bool, string) {
+	flow := wire.flow
+	type level struct {
+		fn  *ssa.Function
+		ins ssa.Instruction
+	}
+	lift := func(ins ssa.Instruction) ([]level, bool) {
+		out := []level{{ins.Parent(), ins}}
+		for hop := 0; hop < 4 && out[len(out)-1].fn != serve; hop++ {
+			h := out[len(out)-1].fn
+			if h.Parent() != nil {
+				return out, false // inside a closure: not followed
+			}
+			sites := w.sitesIn(serve, h)
+			if len(sites) != 1 {
+				return out, false
+			}
+			out = append(out, level{sites[0].Parent(), sites[0]})
+		}
+		return out, out[len(out)-1].fn == serve
+	}
+	bchain, ok := lift(bc)
+	if !ok {
+		return false, ": the broadcast sits in a helper with several call sites"
+	}
+	// a helper holding the broadcast has performed it, or failed the type test, on each of its returns
+	for _, lv := range bchain[:len(bchain)-1] {
+		h := lv.fn
+		hf := w.factsOf(h)
+		for _, r := range liveReturns(h) {
+			if MustPassFromEntry(h, r, map[ssa.Instruction]bool{lv.ins: true}) {
+				continue
+			}
+			hasFailed := func(facts map[Lit]bool) bool {
+				for l := range facts {
+					if ex, ok := l.V.(*ssa.Extract); ok && !l.Pol && ex.Index == 1 {
+						if ta, ok := ex.Tuple.(*ssa.TypeAssert); ok && ta.CommaOk {
+							return true
+						}
+					}
+				}
+				return false
+			}
+			failed := hasFailed(hf.Local(r.Block()))
+			if !failed && len(r.Block().Preds) > 0 && len(r.Block().Instrs) == 1 {
+				failed = true
+				for _, p := range r.Block().Preds {
+					if !failedAssertEdge(w, p, r.Block()) {
+						failed = false
+					}
+				}
+			}
+			if !failed {
+				return false, ": " + shortFn(h) + " can return without having broadcast"
+			}
+		}
+	}
+	inB := map[*ssa.Function]ssa.Instruction{}
+	for _, lv := range bchain {
+		inB[lv.fn] = lv.ins
+	}
+	var head *ssa.BasicBlock
+	for _, b := range serve.Blocks {
+		for _, ins := range b.Instrs {
+			if call, ok := ins.(*ssa.Call); ok && wire.rd != nil && call.Call.StaticCallee() == wire.rd {
+				head = b
+			}
+		}
+	}
+	if head == nil {
+		return false, ": the read of the request was not found"
+	}
+	// reachable: target can be reached from start without passing site and without a failed type test
+	reachable := func(start *ssa.BasicBlock, site ssa.Instruction, target ssa.Instruction) bool {
+		seen := map[*ssa.BasicBlock]bool{}
+		var visit func(b *ssa.BasicBlock, first bool) bool
+		visit = func(b *ssa.BasicBlock, first bool) bool {
+			if seen[b] {
+				return false
+			}
+			seen[b] = true
+			for _, ins := range b.Instrs {
+				if ins == site {
+					return false
+				}
+				if ins == target {
+					return true
+				}
+			}
+			for _, s := range b.Succs {
+				if s == head || failedAssertEdge(w, b, s) {
+					continue
+				}
+				if visit(s, false) {
+					return true
+				}
+			}
+			return false
+		}
+		return visit(start, true)
+	}
+	n := 0
+	for _, g := range w.Tree(serve) {
+		for _, b := range g.Blocks {
+			s := flow.in[b]
+			if !flow.known[b] || s.empty() || s.full() || !effectful(b) {
+				continue
+			}
+			var first ssa.Instruction
+			for _, ins := range b.Instrs {
+				if _, isPhi := ins.(*ssa.Phi); !isPhi {
+					first = ins
+					break
+				}
+			}
+			if first == nil {
+				continue
+			}
+			n++
+			tchain, ok := lift(first)
+			if !ok {
+				return false, ": work of an arm at " + w.Pos(first.Pos()) + " sits in a helper with several call sites"
+			}
+			decided := false
+			for _, lv := range tchain {
+				site, shared := inB[lv.fn]
+				if !shared {
+					continue
+				}
+				start := lv.fn.Blocks[0]
+				if lv.fn == serve {
+					start = head
+				}
+				if lv.ins == site || reachable(start, site, lv.ins) {
+					return false, ": the arm work at " + w.Pos(first.Pos()) + " can be reached without the broadcast"
+				}
+				decided = true
+				break
+			}
+			if !decided {
+				return false, ": the arm work at " + w.Pos(first.Pos()) + " could not be related to the broadcast"
+			}
+		}
+	}
+	if n == 0 {
+		return false, ": no arm work found"
+	}
+	return true, ""
 }
